@@ -831,6 +831,7 @@ static void gen_stream(vrng* g, struct stream_cfg* s, const char* mode, int smal
     }
     if (s->cam.pace_max_us >= 300 && s->N > 150) s->N = vrng_range(g, 20, 150);
     if (vrng_chance(g, 1, 3)) s->cam.stop_us = (int)vrng_range(g, 200, 5000);
+    if (vrng_chance(g, 1, 3)) s->cam.trigger_us = (int)vrng_range(g, 100, 3000);
     if (vrng_chance(g, 1, 4)) s->sto.stop_us = (int)vrng_range(g, 200, 5000);
 }
 
